@@ -51,9 +51,11 @@ PHASES = {
         {"pkg": "e1", "test": "TestC01Matcher", "phase": "C01/matcher-pairs"},
         {"pkg": "e1", "test": "TestC01Independence", "phase": "C01/filter-independence"},
         {"pkg": "e1", "test": "TestC01Histories", "phase": "C01/subscription-histories"},
+        {"pkg": "e2", "test": "TestC01Wire", "phase": "C01/wire"},
     ],
     "C07": [
         {"pkg": "e1", "test": "TestC07Retained", "phase": "C07/retained-histories"},
+        {"pkg": "e2", "test": "TestC07Wire", "phase": "C07/wire"},
     ],
     "C08": [
         {"pkg": "e1", "test": "TestC08Convergence", "phase": "C08/convergence"},
@@ -66,6 +68,7 @@ PHASES = {
     ],
     "C16": [
         {"pkg": "e1", "test": "TestC16Store", "phase": "C16/credential-stores"},
+        {"pkg": "e2", "test": "TestC16Wire", "phase": "C16/wire"},
     ],
     "C04": [
         {"pkg": "e1", "test": "TestC04Queue", "phase": "C04/queue-sequences"},
